@@ -64,6 +64,8 @@ Detail(e) ==
 \* ---- C14: containment ---------------------------------------------------------------------
 ContainClauses(e) ==
   Cl(e.outsideBefore # e.outsideAfter, "C14.outsideTouched")
+  \* a destination too large for the (capped) snapshot: the copy ran away (e.g. copied a tree into itself)
+  \cup Cl("afterTruncated" \in DOMAIN e /\ e.afterTruncated, "C14.destinationGrewBeyondAnyExpectation")
   \cup Cl(e.dstRootGone, "C14.destinationRootItselfRemoved") \cup Cl(e.dstRootGone, "C15.destinationRootItselfRemoved")
   \cup Cl(\E i \in DOMAIN e.after : e.after[i].t = "file" /\ e.after[i].c \in ToSet(e.secrets), "C14.bytesFromOutsideSourceRoot")
 
@@ -82,8 +84,19 @@ FilterCopyClauses(e) ==
       \* select them: created on demand for a selected descendant
       selUsed == IF got = naive THEN selNaive ELSE selIncr
       ondemand == {p \in got : p \notin selUsed /\ Has(tree, p)}
+      \* a destination that already holds entries at source paths: the written set cannot be read off the path sets;
+      \* judged instead: an existing entry at the path of a source non-directory that NEITHER selection selects is
+      \* left exactly as it was, and a selected regular file arrives with the source bytes
+      stale == \E i \in DOMAIN e.before : Has(tree, e.before[i].p)
+      unselected == {p \in PathsOf(e.before) : Has(tree, p) /\ At(tree, p).t # "dir" /\ p \notin selNaive /\ p \notin selIncr}
+      selectedFiles == {p \in selNaive \cap selIncr : At(tree, p).t = "file"}
   IN Cl(~e.ok, "C16.filteredCopyFailed")
      \cup (IF ~e.ok THEN {}
+           ELSE IF stale THEN
+                Cl(\E p \in unselected : ~(Has(e.after, p) /\ At(e.after, p).ino = At(e.before, p).ino /\ At(e.after, p).c = At(e.before, p).c
+                                            /\ At(e.after, p).t = At(e.before, p).t), "C16.unselectedDestinationEntryTouched")
+                \cup Cl(\E p \in selectedFiles : ~(Has(e.after, p) /\ At(e.after, p).t = "file" /\ At(e.after, p).c = At(tree, p).c),
+                        "C16.selectedFileNotCopied")
            ELSE (IF got = naive THEN {}
                  ELSE IF got = incr THEN {"C16.copiedSetDiffersFromReference/explainedByIncrementalMatcher"}
                  ELSE {"C16.copiedSetDiffersFromReference"})
